@@ -1,6 +1,13 @@
 import Lessm.Props.C01
+import Lessm.Props.C01Fmt
 open Lessm.Nest
 #print axioms C01_rules
 #print axioms C01_no_parent
 #print axioms C01_simple_selector
 #print axioms flatList_plain_body
+#print axioms Lessm.IdentFmt.C01_fmt_mark_only
+#print axioms Lessm.IdentFmt.C01_fmt_marks
+#print axioms Lessm.IdentFmt.C01_fmt_decode
+#print axioms Lessm.IdentFmt.C01_fmt_collapse_id
+#print axioms Lessm.IdentFmt.C01_fmt_noquote
+#print axioms Lessm.IdentFmt.C01_fmt_quoted
